@@ -82,8 +82,10 @@ def gen_cases(tier: str, seed: int):
                 steps.append(["use_db", ci, db])
             elif x < 0.62:
                 steps.append(["use_schema", ci, r.choice([0, 1]), db, sc])
-            elif x < 0.87:
+            elif x < 0.80:
                 steps.append(["insert", ci, lvl, db, sc, tb])
+            elif x < 0.87:
+                steps.append(["merge", ci, lvl, db, sc, tb])
             else:
                 steps.append(["select", ci, lvl, db, sc, tb])
         yield {"conns": conns, "steps": steps, "spell": r.randrange(1 << 30)}
@@ -246,8 +248,13 @@ def _run(case: dict, env: core.Env, fs: Any, r: random.Random) -> None:
                     ctx[i][1] = None
                     env.count("drop_current_schema")
                 return True
-        elif op in ("create_table", "drop_table", "create_view", "insert", "select"):
+        elif op in ("create_table", "drop_table", "create_view", "insert", "select", "merge"):
             _, _, lvl, db, sc, nm = step
+            merge = op == "merge"
+            if merge:
+                if D is None or S is None:
+                    continue  # MERGE without a full session context is C12's business
+                op = "insert"
             rd, rs, errno = resolve(i, lvl, db, sc)
             nsql = name_sql(lvl, db, sc, nm)
             schema_ok = rd in cat and rs in cat.get(rd, {})
@@ -264,6 +271,10 @@ def _run(case: dict, env: core.Env, fs: Any, r: random.Random) -> None:
                 marker_n[0] += 1
                 marker = f"m{marker_n[0]}"
                 sql = f"INSERT INTO {nsql} (ID, M) VALUES ({marker_n[0]}, '{marker}')"
+                if merge:
+                    sql = (f"MERGE INTO {nsql} t USING (SELECT {marker_n[0]} AS ID, '{marker}' AS M) s ON t.ID = s.ID "
+                           "WHEN NOT MATCHED THEN INSERT (ID, M) VALUES (s.ID, s.M)")
+                    env.count("merge_statements")
             else:
                 sql = f"SELECT M FROM {nsql}"
             if errno:
@@ -296,7 +307,7 @@ def _run(case: dict, env: core.Env, fs: Any, r: random.Random) -> None:
                     snap = core.snapshot(fs, include_fs=False)
                     found = sorted(k for k, rows in snap["rows"].items() if any(f"'{marker}'" in rk for rk in rows))
                     if found != [f"{rd}.{rs}.{nm}"]:
-                        env.witness(f"C03/resolve/insert/level{lvl}", f"{sql} ctx={ctx[i]}: marker found in {found} expected {rd}.{rs}.{nm}")
+                        env.witness(f"C03/resolve/{sql.split()[0].lower()}/level{lvl}", f"{sql} ctx={ctx[i]}: marker found in {found} expected {rd}.{rs}.{nm}")
                         return False
                     if lvl < 2:
                         located += 1
